@@ -273,6 +273,8 @@ def natLeaf : Val → Bytes
   | .int z => writeVarBytes (toNeo z)
   | .ref _ => []
 
+/-- the recursion of `BuildParamToNative` **before** repair 060d8e9c (no on-path set): kept because C12's lemmas about the
+historical divergence on `a = [1, a]` are stated on it. Not used by `buildParamToNative` any more. -/
 def natv (var : Variant) (perm : Perm) (h : Heap) : Nat → List Nat → Val → Except VErr Bytes
   | 0, _, _ => .error .fuel
   | f+1, path, v =>
@@ -289,10 +291,33 @@ def natv (var : Variant) (perm : Perm) (h : Heap) : Nat → List Nat → Val →
       | some (.map _) => .error .badtype
     | leaf => .ok (natLeaf leaf)
 
-/-- A run that nests deeper than the number of objects revisits an object on the current path; nothing but the detector
-can stop `BuildParamToNative`, so such a run never returns. -/
+/-- `buildParamToNativeOnPath(sink, onPath)` + `buildParamToNative(sink, onPath)` as repaired (060d8e9c): the detector
+runs at every level as before; in addition a non-empty array / struct whose backing store is already on the current
+recursion path (`on`) is rejected with the circular-reference error; `defer delete(onPath, p)` = the set is the path.
+A map is rejected with `ERR_BAD_TYPE` before anything below it is visited. -/
+def natvP (var : Variant) (perm : Perm) (h : Heap) : Nat → List Nat → List Ref → Val → Except VErr Bytes
+  | 0, _, _, _ => .error .fuel
+  | f+1, path, on, v =>
+    if detect var perm path h v then .error .cycle else
+    match v with
+    | .ref r =>
+      match h[r]? with
+      | none => .error .dangling
+      | some (.arr vs) =>
+        if decide (vs.length > 0) && on.contains r then .error .cycle else
+        match serList (fun p v _ => natvP var perm h f p (r :: on) v) path 0 vs 0 with
+        | .error e => .error e
+        | .ok body => .ok (writeVarBytes (toNeo vs.length) ++ body)
+      | some (.struct vs) =>
+        if decide (vs.length > 0) && on.contains r then .error .cycle else
+        serList (fun p v _ => natvP var perm h f p (r :: on) v) path 0 vs 0
+      | some (.map _) => .error .badtype
+    | leaf => .ok (natLeaf leaf)
+
+/-- `VmValue.BuildParamToNative(sink)`. The containers on the recursion path are pairwise different, so the recursion
+is at most `|heap| + 1` deep: the budget is never exhausted (`Props/C14.lean: C14_buildParam_terminates`). -/
 def buildParamToNative (var : Variant) (perm : Perm) (h : Heap) (v : Val) : Except VErr Bytes :=
-  natv var perm h (h.length + 2) [] v
+  natvP var perm h (h.length + 2) [] [] v
 
 /-! ## `Deserialize`: produces a fresh tree (every container is a new object) -/
 
